@@ -91,8 +91,14 @@ for ci, c in enumerate(cases):
         return {'rows': norm(r.values.tolist()), 'header': [str(x) for x in r.columns]}
     def f_sqlite():
         conn = sqlite3.connect(os.path.join(d, 'db_%d.sqlite' % ci))
-        conn.execute('CREATE TABLE t (%s)' % ', '.join('%s TEXT' % n for n in c['header']))
-        conn.executemany('INSERT INTO t VALUES (%s)' % ','.join('?' * len(c['header'])), T)
+        if c.get('generated_last'):
+            # the last column is a GENERATED (computed) column of the sqlite table: same data, other table shape
+            hs = c['header']
+            conn.execute('CREATE TABLE t (%s, %s TEXT GENERATED ALWAYS AS (%s || \'-\' || %s) VIRTUAL)' % (', '.join('%s TEXT' % n for n in hs[:-1]), hs[-1], hs[0], hs[1]))
+            conn.executemany('INSERT INTO t (%s) VALUES (%s)' % (', '.join(hs[:-1]), ','.join('?' * (len(hs) - 1))), [r[:-1] for r in T])
+        else:
+            conn.execute('CREATE TABLE t (%s)' % ', '.join('%s TEXT' % n for n in c['header']))
+            conn.executemany('INSERT INTO t VALUES (%s)' % ','.join('?' * len(c['header'])), T)
         if B is not None:
             conn.execute('CREATE TABLE jt (%s)' % ', '.join('%s TEXT' % n for n in JH))
             conn.executemany('INSERT INTO jt VALUES (%s)' % ','.join('?' * len(JH)), B)
@@ -152,7 +158,12 @@ def gen_cases(rnd, n):
             if shape == 'top':
                 q['top'] = rnd.randint(0, 3)
         text = qgen.render_query(q, 'py', rnd if shape == 'names' else None, HEADER if shape == 'names' else None)
-        cases.append({'query': text, 'table': T, 'header': HEADER, 'expect_header': True})
+        c = {'query': text, 'table': T, 'header': HEADER, 'expect_header': True}
+        if rnd.random() < 0.2 and not q.get('update'):
+            for r in T:
+                r[2] = r[0] + '-' + r[1]
+            c['generated_last'] = True
+        cases.append(c)
     return cases
 
 
